@@ -63,6 +63,60 @@ Theorem C04_fifo : forall E es c,
   prefix (recvs_of c (blocks_of n)) (inbox_at c (chain n)) /\ NoDup (recvs_of c (blocks_of n)).
 Proof. intros E es c n. apply (fifo E). apply run_node_wf. apply WFN_genesis. Qed.
 
+(* a contract receive for send h - verified on a node reached by ANY events, on top of ANY kept prefix of the contract's
+   unconfirmed blocks, acknowledging any momentum of the chain - is accepted EXACTLY when h is the entry of the contract's
+   inbox (as of the acknowledged momentum) at position "number of receives the contract has made", i.e. the head of its
+   line; a send it has already received, the second in line, a send addressed to another account, an unknown hash are
+   refused whatever else holds, and the head is never refused *)
+Theorem C04_contract_receive_iff_head : forall E es keep b h,
+  let n0 := run_node E genesis_node es in
+  let n := mkNode (chain n0) (keep_first (Z.to_nat keep) (b_addr b) (pool n0)) in
+  b_kind b = BRecv h -> is_emb (b_addr b) = true ->
+  1 <= b_ma b <= Z.of_nat (length (chain n)) ->
+  (check_blk E n b = 0 <->
+   nth_error (inbox_at (b_addr b) (firstn (Z.to_nat (b_ma b)) (chain n)))
+             (length (recvs_of (b_addr b) (blocks_of n))) = Some h).
+Proof.
+  intros E es keep b h n0 n. apply (contract_receive_iff_head E n b h).
+  apply WFN_keep_first. apply run_node_wf. apply WFN_genesis.
+Qed.
+
+(* ... and the send an accepted contract receive takes is the first one of the contract's whole inbox that it has not
+   received: no entry is repeated, none is skipped *)
+Theorem C04_contract_receive_takes_head : forall E es keep b h,
+  let n0 := run_node E genesis_node es in
+  let n := mkNode (chain n0) (keep_first (Z.to_nat keep) (b_addr b) (pool n0)) in
+  b_kind b = BRecv h -> is_emb (b_addr b) = true ->
+  check_blk E n b = 0 ->
+  nth_error (inbox_at (b_addr b) (chain n)) (length (recvs_of (b_addr b) (blocks_of n))) = Some h /\
+  ~ In h (recvs_of (b_addr b) (blocks_of n)).
+Proof.
+  intros E es keep b h n0 n. apply (contract_receive_takes_head E n b h).
+  apply WFN_keep_first. apply run_node_wf. apply WFN_genesis.
+Qed.
+
+(* non-vacuity: two calls of contract 2 confirmed by ONE momentum; the contract receives the first; with exactly one send
+   in line a receive of the first AGAIN is refused (at the frontier and as a competing block for the position of its
+   receive's successor), so are the send of another account's inbox and an unknown hash; the one in line is accepted *)
+Definition ex_line_events : list event :=
+  [ EBlock 99 true (mkBlk 1000 100 (BSend 2) 1 []);
+    EBlock 99 true (mkBlk 1001 101 (BSend 2) 1 []);
+    EBlock 99 true (mkBlk 1002 101 (BSend 3) 1 []);
+    EMomentum [1001; 1002; 1000];
+    EBlock 99 false (mkBlk 1003 2 (BRecv 1000) 2 []);
+    EBlock 99 true (mkBlk 1004 2 (BRecv 1001) 2 []);
+    EBlock 99 false (mkBlk 1005 2 (BRecv 1001) 2 []);
+    EBlock 99 false (mkBlk 1006 2 (BRecv 1002) 2 []);
+    EBlock 99 false (mkBlk 1007 2 (BRecv 4242) 2 []);
+    EBlock 99 true (mkBlk 1008 2 (BRecv 1000) 2 []);
+    EBlock 1 false (mkBlk 1009 2 (BRecv 1001) 2 []);
+    EBlock 99 false (mkBlk 1010 2 (BRecv 1000) 2 []) ].
+Example C04_one_in_line_example :
+  let '(codes, n) := run_codes 0 genesis_node ex_line_events in
+  codes = [0; 0; 0; 0; E_SEQ_NOT_NEXT; 0; E_SEQ_NOT_NEXT; E_MISMATCH; E_FROM_MISSING; 0; E_SEQ_NOT_NEXT; E_SEQ_NOTHING] /\
+  inbox_at 2 (chain n) = [1001; 1000] /\ recvs_of 2 (blocks_of n) = [1001; 1000].
+Proof. vm_compute. repeat split; reflexivity. Qed.
+
 (* the decision of fromHash() + sequencer(): accepted only if the send exists in the acknowledged momentum's store,
    is addressed to the receiver, is not marked received, and for a contract is the next in line *)
 Theorem C04_recv_check_sound : forall a h sendto received next,
